@@ -114,9 +114,11 @@ class ifthenelse(Command):
                     postfix.append(stack.pop())
                 stack.pop()  # (
             else:
-                # Handle operators and precedence
-                while stack and self.prec(tok) <= self.prec(stack[-1]):
-                    postfix.append(stack.pop())
+                # Handle operators and precedence. \not is a prefix operator:
+                # it has no left operand, so nothing pending is popped for it.
+                if not isinstance(tok, (_not, NOT)):
+                    while stack and self.prec(tok) <= self.prec(stack[-1]):
+                        postfix.append(stack.pop())
                 stack.append(tok)
         while stack:
             postfix.append(stack.pop())
